@@ -243,6 +243,8 @@ def jobs(tier):
     out.append(Collect(1, (0, 1), 1, 1, True))
     if tier == "thorough":
         out.append(Collect(4, (0, 1), 1, 1, True))
+        out.append(Collect(5, (1, 0), 1, 1, True))
+        out.append(Collect(4, (0, 1), 2, 2, False))
         out.append(Collect(4, (1, 0, 2), 1, 1, True))
         out.append(Collect(3, (2, 0, 1), 2, 2, True))
     out.append(Collect(3, (0, 1), 1, 1, True, canary="wrong_row"))
@@ -266,5 +268,5 @@ def bounds(tier):
 LEVEL_TEXT = ("bounded symbolic model checking of the real collect_results_list / collect_results_dict source from arbitrary "
               "sequences of ContextResults: window layout, flags and data are symbolic; z3 proves row alignment, masked/UNKNOWN "
               "for uncovered rows, agreement of the two forms and source equality of the collected axes; arrival orders are enumerated")
-LEVEL_NOTE = "bounds: rows<=3/4, contexts<=2/3; uninitialised accumulator cells are havoc symbols"
+LEVEL_NOTE = "bounds: rows<=3/5, contexts<=2/3; uninitialised accumulator cells are havoc symbols"
 TECHNIQUE = "symbolic execution of the real Python source over a modelled numpy.ma + z3"
